@@ -1,7 +1,7 @@
 from typing import Optional, Dict
 
 from rsocket.exceptions import RSocketFrameFragmentDifferentType
-from rsocket.frame import FragmentableFrame, PayloadFrame, is_blank
+from rsocket.frame import FragmentableFrame, PayloadFrame, RequestChannelFrame, is_blank
 
 
 class FrameFragmentCache:
@@ -36,6 +36,8 @@ class FrameFragmentCache:
         if isinstance(current_frame_from_fragments, PayloadFrame):
             current_frame_from_fragments.flags_complete = next_fragment.flags_complete
             current_frame_from_fragments.flags_next = next_fragment.flags_next
+        elif isinstance(current_frame_from_fragments, RequestChannelFrame):
+            current_frame_from_fragments.flags_complete = next_fragment.flags_complete
 
         if current_frame_from_fragments is not next_fragment:
             self._merge_frame_content_inplace(current_frame_from_fragments, next_fragment)
